@@ -72,12 +72,14 @@ TEXT = {
             "(1000 thorough) against the model, and checkOwnership + C10's checkTree per numeric-key tree + reuse-before-growth on the dump taken "
             "after every statement of 77 SQL histories (~22 000 dumps quick, ~450 000 thorough).",
     "design_ref": "DESIGN.md §5 C11",
-    "note": "Trusted: Lean kernel + propext/Quot.sound/Classical.choice; dump facade and harness canonicalisation; the rule deciding which "
-            "catalog rows own a tree. Three defects were fixed in /repo (freed overflow page kept its next link; VACUUM leaked the tree of a "
-            "rolled-back CREATE; the B-tree iterator repeated an error forever). Remaining findings: dividers share / dangle overflow chains "
-            "(exact tolerance flag, plus region `bigcell`/`bigcat` for the damage that follows — the catalog's own rows trigger it in ordinary "
-            "workloads after ~30 inserts without VACUUM); DROP TABLE frees pages before commit (exact tolerance flag). Inside the regions the "
-            "verdict is weaker: a new defect with the same symptom could hide there.",
+    "note": "Trusted: Lean kernel + propext/Quot.sound/Classical.choice; dump facade (page parser, chain walk, reading of the meta table) and "
+            "harness canonicalisation. Five defects were fixed in /repo: a freed overflow page kept its next link; VACUUM leaked the tree of a "
+            "rolled-back CREATE; DROP TABLE freed the tree before commit, so a rolled-back DROP left a visible table on freed pages; releasing a "
+            "tree freed the chains of dangling dividers a second time and looped; the B-tree iterator repeated an error for ever. Remaining "
+            "finding: dividers share / dangle overflow chains (exact tolerance flag, plus region `bigcell`/`bigcat` for the damage that follows "
+            "— the catalog's own rows trigger it in ordinary workloads after ~30 inserts without VACUUM). Inside the region the verdict is weak "
+            "(any failure of a history in which a divider with an overflow pointer was seen, a hang or a crash is attributed): a new defect "
+            "could hide there.",
     "technique": "Lean 4 verified checker (decision procedure + soundness theorem) applied to whole-file dumps of the real database after every "
                  "statement; refinement proof of the pointer-level allocator to a FIFO queue, tied by exact differential comparison",
 }
